@@ -14,6 +14,9 @@ case " $* " in
   *" --crate-name prqlc "*|*" --crate-name prqlc_parser "*)
     exec "$rustc" "$@" -Cpasses=sancov-module -Cllvm-args=-sanitizer-coverage-level=3 -Cllvm-args=-sanitizer-coverage-trace-pc-guard \
       -Cpasses=tsan -Cllvm-args=-tsan-instrument-memory-accesses=0 -Cllvm-args=-tsan-instrument-func-entry-exit=0 -Cllvm-args=-tsan-instrument-memintrinsics=0 ;;
+  *" --crate-name regex "*|*" --crate-name regex_automata "*|*" --crate-name colorchoice "*|*" --crate-name anstream "*|*" --crate-name once_cell "*|*" --crate-name sqlformat "*|*" --crate-name sqlparser "*|*" --crate-name chumsky "*|*" --crate-name ariadne "*|*" --crate-name stacker "*|*" --crate-name csv "*|*" --crate-name chrono "*|*" --crate-name log "*)
+    # runtime dependencies through which library code could share state: atomics only
+    exec "$rustc" "$@" -Cpasses=tsan -Cllvm-args=-tsan-instrument-memory-accesses=0 -Cllvm-args=-tsan-instrument-func-entry-exit=0 -Cllvm-args=-tsan-instrument-memintrinsics=0 ;;
   *)
     exec "$rustc" "$@" ;;
 esac
